@@ -84,6 +84,9 @@ type Worker struct {
 	failStack      string
 	lastPanicStack string
 	sigs           []sigRec
+	rngMode        int
+	rngTape        []int
+	rngPos         int
 	cborBlobs      map[string]*cborRec
 	range256       int
 
@@ -438,6 +441,7 @@ func (w *Worker) resetPath(prefix []uint64) {
 	w.failStack = ""
 	w.cborBlobs = nil
 	w.sigs = nil
+	w.rngMode, w.rngTape, w.rngPos = 0, nil, 0
 }
 
 func (w *Worker) runPath(hr *harnessRun, prefix []uint64) {
@@ -659,6 +663,15 @@ func (w *Worker) symxCall(fr *frame, fn *ssa.Function, args []value) value {
 		return nil
 	case "Observe":
 		w.observed = append(w.observed, str(0)+"="+toString(args[1]))
+		return nil
+	case "RNGRecord":
+		w.rngMode, w.rngTape, w.rngPos = 1, nil, 0
+		return nil
+	case "RNGReplay":
+		w.rngMode, w.rngPos = 2, 0
+		return nil
+	case "RNGOff":
+		w.rngMode = 0
 		return nil
 	case "HonestSignature":
 		return w.honestSignature(args[0].([]value), args[1].([]value))
